@@ -13,10 +13,10 @@ cp $demo $out/demo_test.go.txt
 [ -f SEED_REPORT.md ] && cp SEED_REPORT.md $out/SEED_REPORT.md
 gotest() { if [ -n "$ov" ]; then /verif/tools/overlaytest_at.sh $wt "$@"; else go test -vet=off -count=1 "$@"; fi; }
 echo "== with change: demo"; gotest -run 'SeedDemo|Seed' ./$pkg/ 2>&1 | tail -3
-echo "== with change: package tests (demo skipped)"; gotest -skip 'SeedDemo' ./$pkg/ 2>&1 | tail -3
-git stash push -q -- $(git diff --name-only -- . ':(exclude)*_test.go')
+echo "== with change: package tests (demo skipped)"; gotest -skip 'TestSeed' ./$pkg/ 2>&1 | tail -3
+files=$(git diff --name-only -- . ':(exclude)*_test.go'); git diff -- $files > /tmp/intake-$name.patch; git checkout -- $files
 echo "== without change: demo"; gotest -run 'SeedDemo|Seed' ./$pkg/ 2>&1 | tail -3
-git stash pop -q
+git apply /tmp/intake-$name.patch
 echo "== check against the change"
 cd /repo && git diff --quiet || { echo repo dirty; exit 2; }
 git apply $out/patch.diff || { echo "patch does not apply to /repo"; exit 2; }
